@@ -125,8 +125,14 @@ func cat(bs ...[]byte) []byte {
 // MetadataBytes draws a metadata section (after the magic): mostly valid, sometimes not.
 func (r *RNG) MetadataBytes() []byte {
 	var chunks [][]byte
+	var midW []int // width of each chunk's MID
+	midWidth := func() int {
+		w := []int{1, 1, 1, 1, 2, 4}[r.Intn(6)]
+		midW = append(midW, w)
+		return w
+	}
 	mkVB := func() []byte {
-		body := AsmNat(0, 1)
+		body := AsmNat(0, midWidth())
 		x0, y0 := r.Coord(), r.Coord()
 		vals := []float32{x0, y0, x0 + float32(r.Intn(100)), y0 + float32(r.Intn(100))}
 		if r.Chance(15) {
@@ -135,6 +141,12 @@ func (r *RNG) MetadataBytes() []byte {
 		if r.Chance(25) {
 			// a non-finite or inverted value in one of the four slots
 			vals[r.Intn(4)] = bits([]uint32{0x7f800000, 0xff800000, 0x7fc00000, 0xffc00000, 0x7f800000, 0xff800000, 0x7f800004, 0xff7fffff}[r.Intn(8)])
+		}
+		if r.Chance(8) {
+			// finite, ordered, but the extent of one axis overflows float32
+			k := r.Intn(2)
+			vals[k] = -bits(0x7e800000 + uint32(r.Intn(0x00ffffff)))
+			vals[k+2] = bits(0x7e800000 + uint32(r.Intn(0x00ffffff)))
 		}
 		for _, v := range vals {
 			if r.Chance(60) {
@@ -146,14 +158,22 @@ func (r *RNG) MetadataBytes() []byte {
 		return body
 	}
 	mkPal := func() []byte {
-		body := AsmNat(1, 1)
+		body := AsmNat(1, midWidth())
 		n := r.Intn(64)
 		if r.Chance(60) {
 			n = r.Intn(4)
 		}
+		if r.Chance(15) {
+			n = 63
+		}
 		format := r.Intn(4)
 		body = append(body, byte(n)|byte(format)<<6)
-		for i := 0; i <= n; i++ {
+		present := n + 1
+		if r.Chance(12) {
+			// fewer colours than the header announces (the declared chunk length still matches the bytes)
+			present = r.Intn(n + 1)
+		}
+		for i := 0; i < present; i++ {
 			body = append(body, r.ColorBytes(format+1)...)
 		}
 		return body
@@ -177,14 +197,29 @@ func (r *RNG) MetadataBytes() []byte {
 		}
 	default: // unknown MID
 		chunks = append(chunks, cat(AsmNat(uint32(2+r.Intn(100)), 1+r.Intn(2)), []byte{1, 2, 3}[:r.Intn(4)]))
+		midW = append(midW, 1)
 	}
 	count := uint32(len(chunks))
 	if r.Chance(8) {
 		count = []uint32{count + 1, 1 << 29, 100, 0}[r.Intn(4)]
 	}
 	out := AsmNat(count, []int{1, 1, 1, 2, 4}[r.Intn(5)])
-	for _, c := range chunks {
-		l := uint32(len(c))
+	// declared lengths that are wrong in ways that cancel or that match another way of counting
+	adjust := make([]int, len(chunks))
+	if len(chunks) == 2 && r.Chance(6) {
+		d := 1 + r.Intn(4)
+		if r.Bool() {
+			d = -d
+		}
+		adjust[0], adjust[1] = d, -d
+	}
+	for i := range chunks {
+		if i < len(midW) && midW[i] > 1 && r.Chance(25) {
+			adjust[i] = []int{-(midW[i] - 1), midW[i] - 1, -midW[i], midW[i]}[r.Intn(4)]
+		}
+	}
+	for i, c := range chunks {
+		l := uint32(len(c) + adjust[i])
 		if r.Chance(10) {
 			l = uint32(int(l) + r.Intn(7) - 3)
 			if r.Chance(20) {
